@@ -146,7 +146,11 @@ def model : Drv MSt where
           | some r =>
             let u := r.pm.update t
             let r' := r.step t
-            ({ s with runs := s.runs.set k r' },
+            -- engine mode runs the model's own routing (`Instruments.step`); a bare manager is slot 0
+            let runs' := match s.mode with
+              | .engine _ => Instruments.step s.runs t
+              | _ => s.runs.set k r'
+            ({ s with runs := runs' },
               fmtExit u.2 :: fmtPos r'.pm.current ::
                 (derived r.pm.current r' u.2 t ++ lifeLines r'.pm.current u.2))
 
